@@ -64,6 +64,9 @@ for _p in ("C01", "C02", "C03", "C05", "C08", "C09", "C10", "C11", "C12", "C13",
 PROPS["C06"] = dict(suites=["h1", "h2"], cone=mk_cone(fields={"w", "crash"}), title="progress")
 PROPS["C07"] = dict(suites=["h2"], cone=mk_cone(kinds=set()), title="memory-safe hand-off")
 PROPS["C17"] = dict(suites=["h2"], cone=mk_cone(kinds=set()), title="internal lock")
+PROPS["C04"] = dict(suites=["h1", "h2", "ptrsearch"], cone=mk_cone(kinds=VALUE_KINDS, fields={"res", "crash", "d", "b", "T"}),
+                    title="payload integrity")
+PROPS["C20"] = dict(suites=["traits"], cone=mk_cone(kinds=set()), title="Send / Sync")
 
 H1_BUDGET = {"quick": (6000, 28), "thorough": (400000, 40)}
 
@@ -301,6 +304,97 @@ def run_h2(prop, tier, seed, report):
     return viols
 
 
+def coq_eval(body, timeout=300):
+    """evaluate a few vm_compute queries against the compiled development; returns coqc's output"""
+    d = os.path.join(K.CACHE, "eval")
+    os.makedirs(d, exist_ok=True)
+    f = os.path.join(d, "Q_%d.v" % os.getpid())
+    open(f, "w").write(body)
+    rc, out = K.sh(["coqc", "-Q", os.path.join(K.COQ, "theories"), "KV", f], cwd=d, timeout=timeout)
+    return rc, out
+
+
+def run_traits(prop, tier, seed, report):
+    """exhaustive comparison of the model's 56 Send/Sync verdicts with rustc's own"""
+    rc, out = K.sh([K.KVH, "traits"], timeout=120)
+    rustc = {}
+    for l in out.split("\n"):
+        f = l.split()
+        if len(f) == 5:
+            rustc[(f[0], f[1], f[2])] = (f[3], f[4])
+    rc2, out2 = coq_eval("From KV Require Import TraitsBase Traits.\nFrom KV.gen Require Import Gen_Traits.\n"
+                         "Definition dv (tsend tsync : bool) (tr : trait) (n : string) : bool :=\n"
+                         "  derives struct_defs type_aliases explicit_impls tsend tsync 40 tr (TApp n [TParam]).\n"
+                         "Eval vm_compute in (flat_map (fun n => flat_map (fun ts => flat_map (fun ty => [(n, ts, ty, dv ts ty Send n, dv ts ty Sync n)]) "
+                         "[true; false]) [true; false]) (public_handles ++ public_futures)).\n")
+    model = {}
+    for m in re.finditer(r'\("(\w+)"(?:%string)?,\s*(true|false),\s*(true|false),\s*(true|false),\s*(true|false)\)', out2):
+        model[(m.group(1), m.group(2), m.group(3))] = (m.group(4), m.group(5))
+    report["traits"] = {"rustc_verdicts": 2 * len(rustc), "model_verdicts": 2 * len(model)}
+    viols = []
+    if rc != 0 or len(rustc) != 28:
+        viols.append({"witness": False, "suite": "traits", "broken": "the rustc verdict probe did not build or run: " + out[-400:]})
+        return viols
+    cls = {("true", "true"): "u64", ("true", "false"): "Cell<u8>", ("false", "true"): "MutexGuard<'static, u8>", ("false", "false"): "Rc<()>"}
+    for k in sorted(rustc):
+        r, mo = rustc[k], model.get(k)
+        tname = "%s<%s>" % (k[0], cls[(k[1], k[2])])
+        # the property itself, on rustc's verdict
+        want_send = k[1] == "true"
+        if k[1] == "false" and (r[0] == "true" or r[1] == "true"):
+            viols.append({"witness": True, "suite": "traits", "header": "rustc verdicts", "calls": [tname],
+                          "monitor": ["rustc accepts `%s: %s` although the message type is not Send: a program moving or sharing it across threads now compiles"
+                                      % (tname, "Send" if r[0] == "true" else "Sync")],
+                          "program": "fn assert_send<X: Send>() {} fn main() { assert_send::<kanal::%s>(); }" % tname})
+        elif k[1] == "true" and r[0] != "true":
+            viols.append({"witness": True, "suite": "traits", "header": "rustc verdicts", "calls": [tname],
+                          "monitor": ["rustc rejects `%s: Send` although the message type is Send" % tname]})
+        elif k[1] == "true" and k[0] in ("Sender", "AsyncSender", "Receiver", "AsyncReceiver") and r[1] != "true":
+            viols.append({"witness": True, "suite": "traits", "header": "rustc verdicts", "calls": [tname],
+                          "monitor": ["rustc rejects `%s: Sync` although the message type is Send" % tname]})
+        elif mo is not None and mo != r:
+            viols.append({"witness": False, "suite": "traits",
+                          "broken": "correspondence: the derivation model says (Send=%s, Sync=%s) for %s, rustc says (Send=%s, Sync=%s)"
+                                    % (mo[0], mo[1], tname, r[0], r[1])})
+    if len(model) != 28 and not viols:
+        viols.append({"witness": False, "suite": "traits", "broken": "the model's verdict table could not be evaluated: " + out2[-300:]})
+    return viols[:3]
+
+
+def run_ptrsearch(prop, tier, seed, report):
+    """model-side search, used when the C04 theorems no longer check against the regenerated size
+    dispatch: finds a size and transfer path on which the bytes obtained differ from the bytes sent"""
+    q = ["From KV Require Import PtrBase Ptr.", "From KV.gen Require Import Gen_Ptr.", "Open Scope string_scope."]
+    paths = [("into a blocked receiver (recv)", 'path_sync_receiver ptr_sites SZ "lib.Receiver.recv#0" D'),
+             ("into a blocked receiver (recv_timeout)", 'path_sync_receiver ptr_sites SZ "lib.Receiver.recv_timeout#0" D'),
+             ("into a pending async receiver", "path_async_receiver ptr_sites SZ D"),
+             ("out of a blocked sender", "path_sync_sender ptr_sites SZ D"),
+             ("out of a pending async sender", "path_async_sender ptr_sites SZ D"),
+             ("async sender reading its own value back", "path_async_sender_local ptr_sites SZ D")]
+    sizes = [0, 1, 4, 7, 8, 9, 16]
+    for name, e in paths:
+        for sz in sizes:
+            d = "[" + ";".join(str(i + 1) for i in range(sz)) + "]%N"
+            q.append("Eval vm_compute in (%s)." % e.replace("SZ", str(sz)).replace("D", d))
+    rc, out = coq_eval("\n".join(q) + "\n")
+    results = re.findall(r"=\s*(Some\s*\[[^\]]*\]|None)", out.replace("\n", " "))
+    viols = []
+    i = 0
+    for name, e in paths:
+        for sz in sizes:
+            if i < len(results):
+                got = re.sub(r"\s|%N", "", results[i])
+                want = "Some[" + ";".join(str(k + 1) for k in range(sz)) + "]"
+                if got != want:
+                    viols.append({"witness": True, "suite": "model", "header": "size_of::<T>() = %d, path: %s" % (sz, name),
+                                  "calls": ["bytes sent: %s" % want[4:]],
+                                  "monitor": ["with the size dispatch of the current source the byte-level model yields %s instead of the bytes sent "
+                                              "(None: an uninitialised word/cell is read or an unreachable leaf is reached)" % got]})
+            i += 1
+    report["ptrsearch"] = {"cases": i, "failing": len(viols)}
+    return viols[:2]
+
+
 def run_check(prop, tier, seed):
     t0 = time.time()
     if prop not in PROPS:
@@ -345,11 +439,13 @@ def run_check(prop, tier, seed):
     for s in spec["suites"]:
         name = {"h1": "correspondence H1: every call result, drop, wake-up and handed-back value of random and corpus call "
                       "histories equal on the real crate and on the extracted Atomic.astep",
+                "traits": "correspondence: the 56 Send/Sync verdicts of the derivation model equal rustc's own verdicts (exhaustive)",
+                "ptrsearch": "model-side evaluation of every transfer path at sizes 0,1,4,7,8,9,16 over the regenerated size dispatch",
                 "h2": "correspondence H2: event traces of scheduled multi-threaded runs of the real crate accepted by the extracted "
                       "Sig.sstep / Mutex.mstep, one critical section per call, outcomes explained by Atomic.astep; no happens-before "
                       "race, no stuck thread, ledger exact"}[s]
         obligations.append(name)
-        sv = run_h1(prop, tier, seed, report) if s == "h1" else run_h2(prop, tier, seed, report)
+        sv = {"h1": run_h1, "h2": run_h2, "traits": run_traits, "ptrsearch": run_ptrsearch}[s](prop, tier, seed, report)
         if not sv:
             discharged.append(name)
         viols.extend(sv)
@@ -393,7 +489,13 @@ def run_check(prop, tier, seed):
         "build_cached": getattr(b, "cached", False),
         "h2": {k: v for k, v in report.get("h2", {}).items()},
     }
-    if not h1:
+    if not h1 and "traits" in report:
+        cov["evaluations"] = report["traits"]["rustc_verdicts"]
+        cov["distinct_nontrivial"] = report["traits"]["rustc_verdicts"]
+        cov["exhaustive"] = True
+        cov["rule"] = "7 public types x {Send, Sync} x 4 classes of message type (Send/Sync yes/no): rustc's verdict vs the model's"
+        cov["samples"] = [{"type": "Sender<Rc<()>>", "rustc": "not Send, not Sync", "model": "not Send, not Sync"}]
+    elif not h1:
         h2s = report.get("h2", {})
         cov["evaluations"] = h2s.get("executions", 0)
         cov["distinct_nontrivial"] = h2s.get("distinct_traces", 0)
